@@ -3,7 +3,7 @@
 From QV Require Import Base.ListX Model.MsgWriter Spec.NameRepr Spec.MsgWriterS Spec.MsgWriterAbsS
      Proofs.NameWireP Proofs.MsgWriterP Proofs.MsgWriterScanP Proofs.MsgWriterNameP Proofs.MsgWriterInvP
      Proofs.MsgWriterClosP Proofs.MsgWriterNameSP Proofs.MsgWriterLayP Proofs.MsgWriterOpP
-     Proofs.MsgWriterStepP Proofs.MsgWriterMsgP Proofs.MsgWriterDecP.
+     Proofs.MsgWriterStepP Proofs.MsgWriterMsgP Proofs.MsgWriterDecP Proofs.MsgWriterHdrP.
 
 Local Open Scope nat_scope.
 
@@ -120,7 +120,10 @@ Theorem roundtrip buf limit w0 ops : writer_new buf limit = Ok w0 ->
         Forall2 q_rel (am_qs (areplay am0 ops (rr_outcomes rr))) (m_qs m) /\
         Forall2 (rr_rel xparts) (am_an (areplay am0 ops (rr_outcomes rr))) (m_an m) /\
         Forall2 (rr_rel xparts) (am_ns (areplay am0 ops (rr_outcomes rr))) (m_ns m) /\
-        Forall2 (rr_rel xparts) (am_ar (areplay am0 ops (rr_outcomes rr)) ++ pseudo (d_w d)) (m_ar m)
+        Forall2 (rr_rel xparts) (am_ar (areplay am0 ops (rr_outcomes rr)) ++ pseudo (d_w d)) (m_ar m) /\
+        get16 (firstn len b) 0 = Some (m_id m) /\ nth_error (firstn len b) 2 = Some (m_flags2 m) /\
+        nth_error (firstn len b) 3 = Some (m_flags3 m) /\ agree 4 (w_buf (d_w d)) b /\ 12 <= len /\
+        am_mode (areplay am0 ops (rr_outcomes rr)) = w_mode (d_w d)
     | None => True
     end.
 Proof.
@@ -128,7 +131,7 @@ Proof.
   destruct (run_writer_layout buf limit w0 ops H0 Hc) as [rr [E HR]].
   exists rr. split; auto.
   destruct (rr_final rr) as [[len b]|]; auto.
-  destruct HR as [d [wF [LF [yF [Hrun [Hts [-> [-> [HiF [PF [Fq [Fr [FF Hdr]]]]]]]]]]]]].
+  destruct HR as [d [wF [LF [yF [Hrun [Hts [-> [-> [HiF [PF [Fq [Fr [FF [Hdr HA4]]]]]]]]]]]]]].
   set (A := areplay am0 ops (rr_outcomes rr)) in *.
   pose proof (areplay_wf ops (rr_outcomes rr) am0 am0_wf Hw1 Hw2) as HA. fold A in HA.
   set (b := w_buf wF) in *. set (len := w_cursor wF) in *.
@@ -149,7 +152,7 @@ Proof.
   { apply (qs_transfer b header_size len (length b) LF bm Hcl R); [unfold okr; lia|lia|exact P1]. }
   assert (P2' : rrs_at bm LF (y_rrs yF) (w_rr_start (d_w d)) len).
   { apply (rrs_transfer b header_size len (length b) LF bm Hcl R); [unfold okr; lia|lia|exact P2]. }
-  destruct FF as [_ _ _ Cq Ca Cn Cr [Bq [Ba [Bn Br]]] Fe _]. fold A in Cq, Ca, Cn, Cr.
+  destruct FF as [_ _ Fmode Cq Ca Cn Cr [Bq [Ba [Bn Br]]] Fe _]. fold A in Cq, Ca, Cn, Cr, Fmode.
   destruct HA as [Wq Wa Wn Wr].
   (* header *)
   assert (Hdr' : slice bm 4 12 = be16 (w_qd (d_w d)) ++ be16 (w_an (d_w d)) ++ be16 (w_ns (d_w d)) ++ be16 (w_ar (d_w d))).
@@ -177,7 +180,8 @@ Proof.
   pose proof (Forall2_len _ _ _ F1) as L1. pose proof (Forall2_len _ _ _ F2) as L2.
   pose proof (Forall2_len _ _ _ F3) as L3. rewrite app_length in L3.
   pose proof (pseudo_length (d_w d)) as Lp.
-  exists d, (mkDM vid f2 f3 qds d1 d2 d3). split; [exact Hrun|]. split; [|auto].
+  exists d, (mkDM vid f2 f3 qds d1 d2 d3). split; [exact Hrun|]. split;
+    [|cbn [m_qs m_an m_ns m_ar m_id m_flags2 m_flags3]; repeat split; auto; lia].
   unfold decode_msg. rewrite Gid, Gf2, Gf3, G4, G6, G8, G10.
   replace (N.to_nat (w_qd (d_w d))) with (length (y_qs yF)) by lia.
   change 12 with header_size. rewrite Eq.
@@ -185,4 +189,56 @@ Proof.
   replace (N.to_nat (w_ns (d_w d))) with (length rs2) by lia. rewrite E2.
   replace (N.to_nat (w_ar (d_w d))) with (length rs3) by lia. rewrite E3.
   rewrite Hlen, Nat.eqb_refl. reflexivity.
+Qed.
+
+(* ---------------------------------------------------------------- header, EDNS, TSIG *)
+
+Lemma pseudo_eq w H : HInv w H -> pseudo w = pseudo_of (exactf (w_mode w)) H.
+Proof.
+  intros [_ _ _ _ _ He Ht]. unfold pseudo, pseudo_of. rewrite He. f_equal.
+  - destruct (h_edns H) as [[u up]|]; reflexivity.
+  - destruct (w_tsig w) as [t|]; destruct (h_tsig H) as [a|]; try contradiction; auto.
+    destruct Ht as [T1 [T2 [T3 [T4 [T5 [T6 T7]]]]]].
+    unfold tsig_unsigned_rdata, tsig_rdata_of. rewrite T1, T2, T3, T4, T5, T6, T7. reflexivity.
+Qed.
+
+Theorem roundtrip_full buf limit w0 ops : writer_new buf limit = Ok w0 ->
+  run_contract (mkD w0 []) g0 ops -> Forall op_wf ops -> Forall op_wf2 ops -> Forall op_wf3 ops ->
+  exists rr, run_writer buf limit ops = Ok rr /\
+    match rr_final rr with
+    | Some (len, b) =>
+      exists m, decode_msg (firstn len b) = Some m /\
+        hdr_rel (hreplay ah0 ops (rr_outcomes rr)) m /\
+        Forall2 q_rel (am_qs (areplay am0 ops (rr_outcomes rr))) (m_qs m) /\
+        Forall2 (rr_rel xparts) (am_an (areplay am0 ops (rr_outcomes rr))) (m_an m) /\
+        Forall2 (rr_rel xparts) (am_ns (areplay am0 ops (rr_outcomes rr))) (m_ns m) /\
+        Forall2 (rr_rel xparts)
+          (am_ar (areplay am0 ops (rr_outcomes rr)) ++
+           pseudo_of (exact_of (am_mode (areplay am0 ops (rr_outcomes rr)))) (hreplay ah0 ops (rr_outcomes rr)))
+          (m_ar m)
+    | None => True
+    end.
+Proof.
+  intros H0 Hc Hw1 Hw2 Hw3.
+  destruct (roundtrip buf limit w0 ops H0 Hc Hw1 Hw2) as [rr [E HR]].
+  exists rr. split; auto.
+  destruct (rr_final rr) as [[len b]|]; auto.
+  destruct HR as [d [m [Hrun [Ed [Rq [Ra [Rn [Rr [Gid [G2 [G3 [Ag [Hl Hmode]]]]]]]]]]]]].
+  pose proof (hrun ops (mkD w0 []) ah0 d (rr_outcomes rr) true (writer_new_inv _ _ _ H0) (HInv_new _ _ _ H0) Hw3 Hrun) as Hi.
+  cbn [d_w] in Hi. set (H := hreplay ah0 ops (rr_outcomes rr)) in *.
+  exists m. split; auto. split.
+  - destruct Hi as [Hlen Hid Hb [x2 [E2 [B2 F2]]] [x3 [E3 [B3 F3]]] _ _].
+    assert (Hm_id : m_id m = h_id H).
+    { assert (K : get16 (firstn len b) 0 = Some (h_id H)).
+      { apply get16_be16; auto. change (0 + 2) with 2. rewrite slice_firstn by lia.
+        rewrite (agree_slice 4 _ _ 0 2 Ag) by lia. exact Hid. }
+      rewrite K in Gid. inversion Gid; auto. }
+    assert (Hm2 : m_flags2 m = x2).
+    { rewrite nth_error_firstn_lt in G2 by lia. rewrite (agree_nth 4 _ _ 2 Ag) in G2 by lia. congruence. }
+    assert (Hm3 : m_flags3 m = x3).
+    { rewrite nth_error_firstn_lt in G3 by lia. rewrite (agree_nth 4 _ _ 3 Ag) in G3 by lia. congruence. }
+    unfold hdr_rel. rewrite Hm_id, Hm2, Hm3. unfold dec2 in F2. unfold dec3 in F3.
+    inversion F2. inversion F3. repeat split; auto.
+  - split; auto. split; auto. split; auto.
+    rewrite Hmode, <- exactf_of. rewrite <- (pseudo_eq _ _ Hi). exact Rr.
 Qed.
